@@ -14,6 +14,7 @@ by x → y, y → z, z → x.  Theorems about the shared Yee model, over ANY sca
   C08_backward_steps_equivariant
   C08_poynting_equivariant    the raw Poynting record E × H rotates like a vector field
   C08_rot_cube                three relabellings are the identity (rot is a genuine relabelling: a bijection)
+  C08_hvp_shift               the oriented (horizontal, vertical, propagation) triple shifts cyclically with the axis
 
 Not covered by a theorem (K on the real code only, see props/C08.json → not_shown): CPML layers, full 3×3 tensors,
 the construction of the source terms from the source objects (`get_oriented_transverse_axes`, profiles).
@@ -178,6 +179,28 @@ theorem C08_rot_cube (cf : Cfg α) (m : Mat α) (V : V3 α) :
   cases sE <;> cases sH <;> rfl
 
 end
+
+/-! ### the oriented-axes helper -/
+
+/-- **C08_hvp_shift**: relabelling the propagation axis cyclically shifts the whole right-handed (horizontal, vertical,
+propagation) triple of `get_oriented_transverse_axes` cyclically — so azimuth/elevation rotations, the (horizontal,
+vertical) layout of transverse profiles and the TFSF face pair are relabelled consistently. -/
+theorem C08_hvp_shift (a : Nat) (ha : a < 3) :
+    hvp ((a + 1) % 3) = (((hvp a).1 + 1) % 3, ((hvp a).2.1 + 1) % 3, ((hvp a).2.2 + 1) % 3) := by
+  have h : a = 0 ∨ a = 1 ∨ a = 2 := by omega
+  rcases h with h | h | h <;> subst h <;> decide
+
+/-- the triple is a right-handed (even) permutation of (0,1,2) for every axis -/
+theorem C08_hvp_cyclic (a : Nat) (ha : a < 3) :
+    (hvp a = (1, 2, 0)) ∨ (hvp a = (2, 0, 1)) ∨ (hvp a = (0, 1, 2)) := by
+  have h : a = 0 ∨ a = 1 ∨ a = 2 := by omega
+  rcases h with h | h | h <;> subst h <;> decide
+
+/-- the ascending pair of `get_transverse_axes` does NOT shift with the axis (it is (0,2) instead of (2,0) for y): using it
+where an oriented pair is needed breaks the equivariance exactly for propagation along y -/
+theorem C08_ascending_not_equivariant :
+    (ascendingAxes 0 = ((hvp 0).1, (hvp 0).2.1)) ∧ (ascendingAxes 2 = ((hvp 2).1, (hvp 2).2.1))
+      ∧ (ascendingAxes 1 ≠ ((hvp 1).1, (hvp 1).2.1)) := by decide
 
 /-! ### non-vacuity: the relabelling is not the identity, and the equivariance statement is about different scenes -/
 
